@@ -643,7 +643,9 @@ def handle (st : State) (cmd : String) (inp obsToks : List String) : State × St
               if st.mt == .si then (if a == b then none else some s!"PROPFAIL C05 si_changed cell={k}")
               else if step < st.latency && a.i != b.i then some s!"PROPFAIL C05 early_transition cell={k}"
               else if decide (a.e.length = st.latency + 1) && !(stepForwardSpec st.latency step a b) then
-                some s!"PROPFAIL C05 shift cell={k} step={step} pre={showCell a} post={showCell b}"
+                -- C11_eventual_death counts on new infection entering the youngest mortality cohort
+                some (s!"PROPFAIL C05 shift cell={k} step={step} pre={showCell a} post={showCell b}" ++
+                  (if a.mort.dropLast != b.mort.dropLast then s!" ;; PROPFAIL C11 new_infection_not_in_youngest_cohort cell={k} step={step} pre={showCell a} post={showCell b}" else ""))
               else none
             match spec with
             | some v => finish st o v
@@ -733,8 +735,16 @@ def handle (st : State) (cmd : String) (inp obsToks : List String) : State × St
               let sDrop := sumL ((List.range pre.length).map fun k => (pre[k]!).s - (post[k]!).s)
               let totalEst := sumL (suitIdx.map fun k => estO[k]!)
               let expOutside := targets.filter fun (r, c) => g.isOutside r c
+              -- C05: in the SEI model arrivals become exposed (youngest cohort), never infected
+              let pSei : Option String :=
+                if st.mt == .sei then (List.range pre.length).findSome? fun k =>
+                  let a := pre[k]!; let b := post[k]!
+                  if a.e.isEmpty || arrivalsStayExposed a b then none
+                  else some s!"PROPFAIL C05 arrival_not_exposed cell={k} pre={showCell a} post={showCell b}"
+                else none
               let p2 : Option String :=
                 if p1.isSome then p1
+                else if pSei.isSome then pSei
                 else if (targets.length : Int) != totalDisp then some s!"PROPFAIL C04 one_target_per_disperser targets={targets.length} dispersers={totalDisp}"
                 else if outO != expOutside then some s!"PROPFAIL C04 outside_recorded observed={outO.length} expected={expOutside.length}"
                 else if soilPct.isNone && sDrop != totalEst then some s!"PROPFAIL C04 ledger susceptible_consumed={sDrop} established={totalEst}"
